@@ -1735,8 +1735,11 @@ func ReadTerm(vm *VM, streamOrAlias, out, options Term, k Cont, env *Env) *Promi
 	p := NewParser(vm, s)
 
 	t, err := p.Term()
-	// The lexer has read one rune ahead. Give it back now, before the continuation gets a chance to read from s.
-	_ = s.UnreadRune()
+	if err != io.EOF {
+		// The lexer has read one rune ahead. Give it back now, before the continuation gets a chance to read from s.
+		// When there's no more term, we deliver end_of_file. Then the stream stays past the end.
+		_ = s.UnreadRune()
+	}
 	switch err {
 	case nil:
 		break
